@@ -256,6 +256,32 @@ func (c14) Eval(c *Case) (*Violation, bool) {
 			}
 		}
 		Extra["read_faults_enumerated"] += n
+		if c.Tier == "thorough" {
+			// drawn pairs of faults on two different read operations
+			var reads []simrt.FsOp
+			for _, op := range base.Trace {
+				if op.Op == "readfile" || op.Op == "open" {
+					reads = append(reads, op)
+				}
+			}
+			for k := 0; k < 12 && len(reads) >= 2; k++ {
+				a, b := reads[r.Intn(len(reads))], reads[r.Intn(len(reads))]
+				if a.N == b.N {
+					continue
+				}
+				ka, kb := readKinds[r.Intn(len(readKinds))], readKinds[r.Intn(len(readKinds))]
+				sp := c.specFor(s, files, argv)
+				sp.Faults = map[int]simrt.Fault{a.N: {Kind: ka, Arg: r.Intn(1 << 16)}, b.N: {Kind: kb, Arg: r.Intn(1 << 16)}}
+				o := Run(sp)
+				hard := (ka != "trunc" && ka != "flip" && o.Fired[a.Op+":"+ka] > 0) || (kb != "trunc" && kb != "flip" && o.Fired[b.Op+":"+kb] > 0)
+				if v := cleanEnd(o, c.Cmd, c.Args, hard && base.OK(), fmt.Sprintf("%s on %s and %s on %s", ka, a.Path, kb, b.Path)); v != nil {
+					v.Signature += ":pair"
+					c.Faults = sp.Faults
+					return v, false
+				}
+				Extra["read_fault_pairs"]++
+			}
+		}
 		return nil, n == 0
 	case "include-graph":
 		files = copyFiles(files)
